@@ -17,15 +17,27 @@ package http3
 //	S_i  request i starts: RequestStream.sendRequestHeader (+ sendRequestTrailer) runs in its own
 //	     goroutine until a stream Write blocks (or the writer returns)
 //	R_i  stream i is unblocked: it consumes what is pending and everything written later at once
+//	X_i  stream i is cancelled while its Write is blocked (the request context is cancelled between
+//	     opening the stream and sending the header, CancelWrite, a write deadline, STOP_SENDING from
+//	     the peer): the blocked Write returns an error together with the number of bytes it had
+//	     consumed, every later Write of the stream fails at once. This is a per-request failure: the
+//	     connection, and with it the requestWriter, stays in use for the other requests.
 //
-// with S_1 < S_2 < ... and S_i < R_i, and for the overlapping schedules with a stream that has
-// consumed nothing / the first half of the blocked Write before it blocked, the blocked Write being
-// the first one of the stream (the request section) or the second one (the trailer section). The harness owns the
-// schedule (channels; real time only guards calls that the model says cannot block).
+// with S_1 < S_2 < ..., S_i < R_i / X_i, and every stream ended by exactly one of R_i, X_i; for the
+// schedules that overlap or cancel, with a stream that has consumed nothing / the first half of
+// the blocked Write before it blocked, the blocked Write being the first one of the stream (the
+// request section) or the second one (the trailer section). (A stream that is cancelled before its
+// request starts is the schedule "S_i X_i" with nothing consumed: the parked goroutine does nothing
+// in between.) The harness owns the schedule (channels; real time only guards calls that the model
+// says cannot block).
 //
 // Oracle (the last sentence of the statement, per stream): what stream i consumed is parsed back by
 // the real receive path and must be accepted and equal the fields of message i — the same judge as
 // part writer-request (c19JudgeReqWire), nothing about timing or about which request goes first.
+// A stream one of whose Writes failed is not judged (it is reset, the peer does not parse it; the
+// statement is silent about a message that could not be sent) — but every OTHER stream of the
+// connection is: its message is as valid as before, so what is emitted for it must be accepted and
+// must decode to its own fields, whatever happened to the requests before or next to it.
 
 import (
 	"fmt"
@@ -36,6 +48,7 @@ import (
 
 	"github.com/quic-go/qpack"
 
+	quic "github.com/refraction-networking/uquic"
 	"github.com/refraction-networking/uquic/internal/verifmc/explore"
 )
 
@@ -43,15 +56,22 @@ import (
 // flow-control blocked QUIC stream: its blockAt-th Write (1 = the request section, 2 = what follows
 // it, i.e. the trailer section) consumes `half` of the slice when it is entered and the rest when
 // the stream is released. Earlier Writes, and all Writes of a released stream, are consumed at once.
+// A stream that is cancelled instead of released fails the blocked Write (n = what it had consumed)
+// and every later one (n = 0), as quic.SendStream.Write does after CancelWrite / a deadline.
 type c19LazyStream struct {
 	c19FakeStream
 	half    bool
 	blockAt int
 	writes  int
+	failed  int // the first Write that returned the cancellation error (0: none)
 	once    sync.Once
 	entered chan struct{} // closed when a Write blocks
 	gate    chan struct{} // closed by the harness: released
+	cancel  chan struct{} // closed by the harness: cancelled (never both)
 }
+
+// what a cancelled quic stream returns from Write
+var c19ErrCancelled = &quic.StreamError{StreamID: 0, ErrorCode: quic.StreamErrorCode(ErrCodeRequestCanceled), Remote: false}
 
 var _ datagramStream = &c19LazyStream{}
 
@@ -59,7 +79,14 @@ func newC19LazyStream(half bool, blockAt int) *c19LazyStream {
 	if blockAt == 0 {
 		blockAt = 1
 	}
-	return &c19LazyStream{half: half, blockAt: blockAt, entered: make(chan struct{}), gate: make(chan struct{})}
+	return &c19LazyStream{half: half, blockAt: blockAt, entered: make(chan struct{}), gate: make(chan struct{}), cancel: make(chan struct{})}
+}
+
+func (s *c19LazyStream) fail(n int) (int, error) {
+	if s.failed == 0 {
+		s.failed = s.writes
+	}
+	return n, c19ErrCancelled
 }
 
 func (s *c19LazyStream) Write(b []byte) (int, error) {
@@ -67,6 +94,8 @@ func (s *c19LazyStream) Write(b []byte) (int, error) {
 	select {
 	case <-s.gate:
 		return s.out.Write(b)
+	case <-s.cancel:
+		return s.fail(0)
 	default:
 	}
 	if s.writes != s.blockAt {
@@ -78,20 +107,24 @@ func (s *c19LazyStream) Write(b []byte) (int, error) {
 	}
 	s.out.Write(b[:n])
 	s.once.Do(func() { close(s.entered) })
-	<-s.gate
-	s.out.Write(b[n:]) // the slice is read again only now
-	return len(b), nil
+	select {
+	case <-s.gate:
+		s.out.Write(b[n:]) // the slice is read again only now
+		return len(b), nil
+	case <-s.cancel:
+		return s.fail(n)
+	}
 }
 
 type c19ConnCase struct {
 	Msgs  []c19ReqMsg `json:"requests"`
-	Sched string      `json:"schedule"` // e.g. "S1 S2 R2 R1"
+	Sched string      `json:"schedule"` // e.g. "S1 S2 R2 R1", "S1 X1 S2 R2"
 	Half  bool        `json:"blocked_write_half_consumed"`
 	At    int         `json:"blocked_write"` // 1 (or 0): the first Write of a stream blocks, 2: the second one
 }
 
 func (c c19ConnCase) human() []string {
-	out := []string{fmt.Sprintf("one requestWriter (one connection), %d request streams, schedule %s (S = request starts and runs until its stream Write blocks, R = stream released); the %s Write of an unreleased stream blocks and has consumed %s of its slice",
+	out := []string{fmt.Sprintf("one requestWriter (one connection), %d request streams, schedule %s (S = request starts and runs until its stream Write blocks, R = stream released, X = stream cancelled: the blocked Write and all later ones fail); the %s Write of an unreleased stream blocks and has consumed %s of its slice",
 		len(c.Msgs), c.Sched, map[bool]string{false: "first", true: "second"}[c.At == 2], map[bool]string{false: "nothing", true: "the first half"}[c.Half])}
 	for i, m := range c.Msgs {
 		for j, l := range m.human() {
@@ -106,16 +139,28 @@ func (c c19ConnCase) human() []string {
 	return out
 }
 
-// c19Schedules lists every order of S_1..S_n, R_1..R_n with S_1 < ... < S_n and S_i < R_i;
-// overlap = some request starts while an earlier stream is still blocked.
+// c19Schedules lists every order of S_1..S_n, E_1..E_n with S_1 < ... < S_n and S_i < E_i, where
+// the end E_i of stream i is R_i (released) or X_i (cancelled), in every combination;
+// overlap = some request starts while an earlier stream is still blocked. The orders come
+// sequential first, and for each order the all-released schedule first.
 func c19Schedules(n int) (all []string, overlap map[string]bool) {
 	overlap = map[string]bool{}
 	var rec func(cur []string, started int, open []int, ov bool)
 	rec = func(cur []string, started int, open []int, ov bool) {
 		if started == n && len(open) == 0 {
-			s := strings.Join(cur, " ")
-			all = append(all, s)
-			overlap[s] = ov
+			for ends := 0; ends < 1<<n; ends++ { // bit i-1: stream i is cancelled
+				ops := append([]string(nil), cur...)
+				for k, op := range ops {
+					var i int
+					fmt.Sscanf(op[1:], "%d", &i)
+					if op[0] == 'R' && ends&(1<<(i-1)) != 0 {
+						ops[k] = fmt.Sprintf("X%d", i)
+					}
+				}
+				s := strings.Join(ops, " ")
+				all = append(all, s)
+				overlap[s] = ov
+			}
 			return
 		}
 		for k, i := range open { // release first: the sequential schedule comes first
@@ -130,6 +175,22 @@ func c19Schedules(n int) (all []string, overlap map[string]bool) {
 	return all, overlap
 }
 
+func c19SchedOverlaps(sched string) bool {
+	open := 0
+	for _, op := range strings.Fields(sched) {
+		switch op[0] {
+		case 'S':
+			if open > 0 {
+				return true
+			}
+			open++
+		default:
+			open--
+		}
+	}
+	return false
+}
+
 type c19Flight struct {
 	m        c19ReqMsg
 	req      *http.Request
@@ -140,14 +201,22 @@ type c19Flight struct {
 	terr     error
 	finished bool
 	released bool
+	ended    bool // released or cancelled
 }
 
 const c19ConnGuard = 30 * time.Second
 
 func (f *c19Flight) release() {
-	if !f.released {
-		f.released = true
+	if !f.ended {
+		f.ended, f.released = true, true
 		close(f.str.gate)
+	}
+}
+
+func (f *c19Flight) cancel() {
+	if !f.ended {
+		f.ended = true
+		close(f.str.cancel)
 	}
 }
 
@@ -172,7 +241,7 @@ func c19RunConnCase(c c19ConnCase) (outcome string, fail *explore.Fail) {
 	for _, op := range strings.Fields(c.Sched) {
 		var i int
 		_, err := fmt.Sscanf(op[1:], "%d", &i)
-		explore.Must(err == nil && i >= 1 && i <= n && (op[0] == 'S' || op[0] == 'R'), "bad schedule %q", c.Sched)
+		explore.Must(err == nil && i >= 1 && i <= n && (op[0] == 'S' || op[0] == 'R' || op[0] == 'X'), "bad schedule %q", c.Sched)
 		switch op[0] {
 		case 'S':
 			explore.Must(fl[i-1] == nil, "bad schedule %q", c.Sched)
@@ -216,19 +285,30 @@ func c19RunConnCase(c c19ConnCase) (outcome string, fail *explore.Fail) {
 				}
 				wait(false)
 			}
-		case 'R':
+		case 'R', 'X':
 			f := fl[i-1]
 			explore.Must(f != nil, "bad schedule %q", c.Sched)
-			f.release()
+			if op[0] == 'X' {
+				f.cancel() // (no effect on a stream that was released because a later request waited for it)
+			} else {
+				f.release()
+			}
 			f.wait()
 		}
 	}
 	var outs []string
+	ncancel := 0
 	for i, f := range fl {
 		explore.Must(f != nil && f.finished, "bad schedule %q", c.Sched)
 		where := fmt.Sprintf("%s/stream%d", strings.ReplaceAll(c.Sched, " ", ""), i+1)
 		if f.herr != nil && strings.HasPrefix(f.herr.Error(), "c19 panic: ") {
 			return "", explore.Failf("writer-request-conn/panic@"+where, "request %d: %v", i+1, f.herr)
+		}
+		if f.str.failed != 0 {
+			// a Write of this stream failed: the stream is reset, nothing the statement speaks about
+			outs = append(outs, fmt.Sprintf("stream cancelled, write %d fails", f.str.failed))
+			ncancel++
+			continue
 		}
 		explore.Must(f.terr == nil, "sendRequestTrailer: %v", f.terr)
 		out, fail := c19JudgeReqWire(f.m, f.req, f.valid, f.herr, f.str.out.Bytes(), where)
@@ -239,8 +319,13 @@ func c19RunConnCase(c c19ConnCase) (outcome string, fail *explore.Fail) {
 		outs = append(outs, strings.TrimSuffix(strings.TrimPrefix(out, "valid message: "), " message"))
 	}
 	kind := "sequential"
-	if _, ov := c19Schedules(n); ov[c.Sched] {
+	if c19SchedOverlaps(c.Sched) {
 		kind = "overlapping"
+	}
+	if strings.Contains(c.Sched, "X") {
+		kind += fmt.Sprintf(", %d of %d cancellations hit a blocked write", ncancel, strings.Count(c.Sched, "X"))
+	}
+	if kind != "sequential" {
 		if c.Half {
 			kind += ", half consumed"
 		}
@@ -308,13 +393,21 @@ func c19ConnMsgs3() []c19ReqMsg {
 	return l
 }
 
+// The scenarios with sequential schedules come first, for all message tuples, the overlapping ones
+// after them: a writer that holds its lock across the stream Write makes every overlapping scenario
+// wait for the 30 s guard, and must not keep the sequential ones from being run before the deadline.
 func c19ConnLattice(e explore.Env) []c19ConnCase {
 	var l []c19ConnCase
-	add := func(msgs []c19ReqMsg) {
+	add := func(msgs []c19ReqMsg, overlapping bool) {
 		scheds, overlap := c19Schedules(len(msgs))
 		for _, s := range scheds {
+			if overlap[s] != overlapping {
+				continue
+			}
 			l = append(l, c19ConnCase{Msgs: msgs, Sched: s})
-			if overlap[s] {
+			// where a Write blocks, and how much it has consumed, matters if something happens
+			// while it is blocked: another request starts, or the stream is cancelled
+			if overlap[s] || strings.Contains(s, "X") {
 				l = append(l, c19ConnCase{Msgs: msgs, Sched: s, Half: true})
 				for _, m := range msgs {
 					if m.Trailer != 0 { // a second Write exists only for a request that sends trailers
@@ -326,17 +419,20 @@ func c19ConnLattice(e explore.Env) []c19ConnCase {
 		}
 	}
 	ms := c19ConnMsgs()
-	for _, a := range ms {
-		for _, b := range ms {
-			add([]c19ReqMsg{a, b})
-		}
-	}
+	var m3 []c19ReqMsg
 	if e.Thorough() {
-		m3 := c19ConnMsgs3()
+		m3 = c19ConnMsgs3()
+	}
+	for _, overlapping := range []bool{false, true} {
+		for _, a := range ms {
+			for _, b := range ms {
+				add([]c19ReqMsg{a, b}, overlapping)
+			}
+		}
 		for _, a := range m3 {
 			for _, b := range m3 {
 				for _, c := range m3 {
-					add([]c19ReqMsg{a, b, c})
+					add([]c19ReqMsg{a, b, c}, overlapping)
 				}
 			}
 		}
@@ -346,13 +442,13 @@ func c19ConnLattice(e explore.Env) []c19ConnCase {
 
 func c19ConnPart() explore.Part {
 	p := c19LatticePart("writer-request-conn",
-		"every ordered pair (thorough: also every triple of a 3-message-class subset) of a star-shaped sub-lattice of the writer-request lattice, sent through ONE real requestWriter on separate lazy streams, x every schedule of {request i starts and runs until its stream Write blocks, stream i released} x {the first, the second Write of an unreleased stream blocks} x {the blocked Write has consumed nothing, the first half}; each stream's bytes parsed back by frameParser + qpack decoder + requestFromHeaders/decodeTrailers and compared with its own message",
+		"every ordered pair (thorough: also every triple of a 13-message-class subset) of a star-shaped sub-lattice of the writer-request lattice, sent through ONE real requestWriter on separate lazy streams, x every schedule of {request i starts and runs until its stream Write blocks, stream i released, stream i cancelled = its blocked Write and all later ones fail} x {the first, the second Write of an unreleased stream blocks} x {the blocked Write has consumed nothing, the first half}; the bytes of each stream none of whose Writes failed are parsed back by frameParser + qpack decoder + requestFromHeaders/decodeTrailers and compared with its own message",
 		c19ConnLattice, c19RunConnCase, c19ConnCase.human)
 	run := p.Run
 	p.Run = func(e explore.Env) *explore.Report {
 		rep := run(e)
 		s2, _ := c19Schedules(2)
-		rep.Bound = fmt.Sprintf("%d connection scenarios: %d x %d ordered request pairs x %d schedules (%s), overlapping ones x {first Write blocks, second Write blocks (pairs with trailers)} x {nothing, half of the blocked slice consumed}",
+		rep.Bound = fmt.Sprintf("%d connection scenarios: %d x %d ordered request pairs x %d schedules (%s), overlapping and cancelling ones x {first Write blocks, second Write blocks (pairs with trailers)} x {nothing, half of the blocked slice consumed}",
 			rep.Transitions, len(c19ConnMsgs()), len(c19ConnMsgs()), len(s2), strings.Join(s2, " / "))
 		if e.Thorough() {
 			s3, _ := c19Schedules(3)
